@@ -91,7 +91,7 @@ def gen_world(rng: random.Random, wid: int, *, n_mem=2, toll=False, bounds=None,
     return {"id": wid, "kind": kind, "tensors": tensors, "bound": bound, "proj": proj, "out": "Z",
             "level": level, "istoll": istoll, "dir": dirs, "skip": skip,
             "cskip": (rng.random() < 0.7) if rich_costs else True,
-            "bits": bits, "wbits": wbits, "size": size, "cost": cost, "mac": mac}
+            "bits": bits, "wbits": wbits, "size": size, "cost": cost, "mac": mac, "ninst": 1, "allowpers": False}
 
 
 # ------------------------------------------------------------------------------ YAML
@@ -177,7 +177,8 @@ def mapping_yaml(w, nodes) -> str:
     for n in nodes:
         if n["kind"] == "S":
             kind = "Toll" if w["istoll"][n["mem"]] else "Storage"
-            out.append("  - !%s {tensors: [%s], component: %s}" % (kind, n["t"], n["mem"]))
+            out.append("  - !%s {tensors: [%s], component: %s%s}" % (kind, n["t"], n["mem"],
+                                                                  ", persistent: True" if n.get("pers") else ""))
         elif n["kind"] == "T":
             out.append("  - !Temporal {rank_variable: %s, tile_shape: %d}" % (n["rv"], n["tile"]))
         elif n["kind"] == "C":
